@@ -79,6 +79,9 @@ def _gene_case(repo, it, S, spec):
         parent, off = chrom_parent(it, GENOME, alphabet="NT_EXTENDED"), 0
     elif parent_kind == "chunk":
         parent, off = chunk_parent(it, GENOME, 2, 45, alphabet="NT_EXTENDED"), 2
+    elif parent_kind == "late":
+        # the members are built without a parent and receive the gene's parent when the gene is built
+        parent, off = chrom_parent(it, GENOME, alphabet="NT_EXTENDED"), 0
     else:
         parent, off = None, 0
     desc = f"gene of transcripts {list(idxs)} primary flags {list(flags)} parent={parent_kind}"
@@ -86,7 +89,7 @@ def _gene_case(repo, it, S, spec):
     txs = []
     for i, fl in zip(idxs, flags):
         t = TX[i]
-        kw = dict(transcript_id=f"t{i}", is_primary_tx=fl, sequence_name="chr1", parent_or_seq_chunk_parent=parent)
+        kw = dict(transcript_id=f"t{i}", is_primary_tx=fl, sequence_name="chr1", parent_or_seq_chunk_parent=None if parent_kind == "late" else parent)
         if t["cds"]:
             fr = consistent_frames(t["cds"], t["strand"], 0)
             txs.append(mk_transcript(it, t["exons"], S[t["strand"]], t["cds"], [F[nm[x]] for x in fr], **kw))
@@ -149,12 +152,15 @@ def _gene_case(repo, it, S, spec):
             if t["cds"]:
                 n += 2
                 k1, v1 = run(it, repo.fn(f"{q}.get_primary_cds_sequence"), [], {}, g)
-                k2, v2 = run(it, repo.fn("gene.cds:CDSInterval.extract_sequence"), [], {}, txs[want].fields["cds"])
+                # (the member's own answer is the reference - also when it is a refusal: members that were built without a parent
+                # and received the gene's parent afterwards keep answers memoised before that, as _reset_parent documents)
+                ref_cds = txs[want].fields["cds"]
+                k2, v2 = run(it, repo.fn("gene.cds:CDSInterval.extract_sequence"), [], {}, ref_cds)
                 sq = lambda x: x.fields.get("sequence") if isinstance(x, Obj) else x  # noqa: E731
                 if k1 != k2 or (k1 == "ok" and sq(v1) != sq(v2)):
                     out.append(("get_primary_cds_sequence", f"{desc}: primary CDS sequence differs from the primary member's CDS sequence", f"{q}.get_primary_cds_sequence"))
                 k1, v1 = run(it, repo.fn(f"{q}.get_primary_protein"), [], {}, g)
-                k2, v2 = run(it, repo.fn("gene.cds:CDSInterval.translate"), [], {}, txs[want].fields["cds"])
+                k2, v2 = run(it, repo.fn("gene.cds:CDSInterval.translate"), [], {}, ref_cds)
                 if k1 != k2 or (k1 == "ok" and sq(v1) != sq(v2)):
                     out.append(("get_primary_protein", f"{desc}: primary protein differs from the primary member's translation", f"{q}.get_primary_protein"))
     # a second gene around the same transcript objects (other order): the inferred primary is a function of that gene's own
@@ -407,6 +413,8 @@ def rk_genes(ctx):
             for fl in flagsets:
                 for pk in (("none", "chrom", "chunk") if (sum(idxs) % 3 == 0 or r_ < 3) else ("chunk",)):
                     specs.append((idxs, fl, pk))
+                if r_ < 3 and fl == flagsets[0]:
+                    specs.append((idxs, fl, "late"))
     ctx.r.floor("C20.RK", "gene cases", len(specs), 150)
     from ..par import pmap
     results = pmap(_runner(ctx.repo, _gene_case), specs)
